@@ -672,18 +672,24 @@ class Formatter(BaseFormatter):
         :returns: A string value that was formatted from format string pattern.
         """
         _fmts: ReturnFormattersType = self.formatter(self.value)
-        fmt = fmt.replace("%%", "[ESCAPE]")
-        for _fmt_match in re.finditer(r"(%[-+!*]?[A-Za-z])", fmt):
-            _fmt_str: str = _fmt_match.group()
+
+        def _to_value(fmt_match: re.Match[str]) -> str:
+            _fmt_str: str = fmt_match.group()
+            if _fmt_str == "%%":
+                return "%"
             try:
                 _value: Union[FormatterCallable, str] = _fmts[_fmt_str]["value"]
-                fmt = fmt.replace(_fmt_str, caller(_value))
             except KeyError as err:
                 raise FormatterKeyError(
                     f"the format: {_fmt_str!r} does not support for "
                     f"{self.__class__.__name__!r}"
                 ) from err
-        return fmt.replace("[ESCAPE]", "%")
+            return caller(_value)  # type: ignore[no-any-return]
+
+        # NOTE: read the format string in one pass from left to right, the
+        #   same way that the gen_format method reads it: a rendered text or
+        #   a literal percent sign never makes up a new directive.
+        return re.sub(r"%%|%[-+!*]?[A-Za-z]", _to_value, fmt)
 
     def __init__(
         self,
